@@ -1,8 +1,13 @@
 package main
 
 import (
+	"bytes"
 	"context"
 	"fmt"
+	"github.com/lidofinance/dc4bc/client/modules/state"
+	"os"
+	"path/filepath"
+	"sort"
 	"strings"
 	"time"
 
@@ -170,6 +175,48 @@ func c13Run(c *Ctx, w *World, meIdx int, round string, doPoll bool, double bool)
 				fmt.Sprintf("after a restart on its state directory the node resumes from offset %d, it had saved %d (or its rounds/operations changed)", off, k),
 				map[string]interface{}{"saved_offset": k, "offset_after_restart": off, "before": snap1, "after": snap2})
 		}
+	}
+
+	// a process killed in the middle of a state write leaves a torn last record in the store's journal:
+	// the node must start on it (the torn write is simply not there), without manual repair
+	for _, cut := range []int64{1, 100, 40000, 70000} {
+		e := NewNodeEnv(newEnvDir(c), me)
+		for _, it := range h[:6] {
+			applyItem(e, it)
+		}
+		e.St.SaveOffset(6)
+		// the write in flight when the process dies: larger than a journal block, as the stored rounds
+		// of a key generation are - it reaches the file in several writes
+		e.St.Set("write_in_flight", bytes.Repeat([]byte("x"), 100000))
+		dir := filepath.Join(newEnvDir(c), "torn-image")
+		copyDir(filepath.Join(e.Dir, stateDirName(e.nopen)), dir) // what is on disk when the process dies
+		e.Close()
+		logs, _ := filepath.Glob(filepath.Join(dir, "*.log"))
+		c.Case("torn-journal", true, "skip torn-journal", "skip torn-journal")
+		if len(logs) == 0 {
+			continue
+		}
+		sort.Strings(logs)
+		j := logs[len(logs)-1]
+		if os.Getenv("C13_DEBUG") != "" {
+			fi, _ := os.Stat(j)
+			fmt.Fprintln(os.Stderr, "torn journal:", logs, fi.Size(), cut)
+		}
+		if fi, err := os.Stat(j); err == nil && fi.Size() > cut {
+			os.Truncate(j, fi.Size()-cut)
+		}
+		st, err := state.NewLevelDBState(dir, topic)
+		if err != nil {
+			fail("torn-write-blocks-restart", map[string]interface{}{},
+				fmt.Sprintf("after a state write torn %d bytes before its end the node cannot be started on its state directory: %v", cut, err),
+				map[string]interface{}{"bytes_missing": cut, "error": err.Error()})
+			continue
+		}
+		if off, err := st.LoadOffset(); err != nil || off != 6 {
+			fail("torn-write-blocks-restart", map[string]interface{}{}, fmt.Sprintf("after a torn state write the saved offset is %d (%v), it was 6", off, err), map[string]interface{}{"bytes_missing": cut})
+		}
+		st.VerifClose()
+		os.RemoveAll(dir)
 	}
 
 	// the real Poll loop: the node is killed while handling the first message of the board; after the
